@@ -47,8 +47,15 @@ def apply_descriptor(lines, d):
         if len(ids) < p + 2:
             return None
         out = C.relabel_residues(out, {ids[p + 1]: (ids[p][0], ids[p][1], "A" if ids[p][2] == " " else chr(ord(ids[p][2]) + 1))})
-    out = C.shift_numbers(out, d["sa"], a)
-    out = C.shift_numbers(out, d["sb"], b)
+    sa, sb = d["sa"], d["sb"]
+    ia, ib = residue_ids(out, a), residue_ids(out, b)
+    # the symbolic shift 3 of the model: the shifted chain meets the other chain's number at the chain boundary
+    if sb == 3 and ia and ib:
+        sb = (ia[-1][1] + (sa if sa != 3 else 0)) - ib[0][1]
+    if sa == 3 and ia and ib:
+        sa = (ib[0][1] + sb) - ia[-1][1]
+    out = C.shift_numbers(out, sa, a)
+    out = C.shift_numbers(out, sb, b)
     if mode == "sequential":
         out = C.renumber_sequential(out, 1)
     # chain renaming (simultaneous): A -> cm.A, B -> cm.B ; other chains untouched
@@ -84,6 +91,12 @@ def structures(ctx):
     e = C.chain_lines("3SGB", "E", 170, 30)     # contains 192A/192B-like insertion codes? (kept as is)
     i = C.chain_lines("3SGB", "I", 0, 20)
     out.append(("frag-3SGB-EI", e + [C.TER] + i + [C.TER]))
+    # a C-terminus (with its terminal oxygen) followed by the N-terminus of the next chain
+    out.append(("cterm+nterm", C.chain_lines("1HPX", "A", 93, 6) + [C.TER] + C.chain_lines("1HPX", "B", 0, 6) + [C.TER]))
+    # same-type adjacent residues at the positions the twin modes relabel (residues 2 and 3 of the first chain)
+    for src, lines, a1, a2 in C.adjacent_same_type(pad=1)[1:3]:
+        b2 = C.chain_lines("1HPX", "B", 20, 6)
+        out.append((f"same-type-{src}-{a1[1]}", C.rename_chain(lines, a1[0], "A") + [C.TER] + b2 + [C.TER]))
     if ctx.thorough():
         out.append(("1HPX", C.body(C.test_pdb_text("1HPX"))))
         out.append(("3SGB", C.body(C.test_pdb_text("3SGB"))))
@@ -104,7 +117,7 @@ def run(ctx):
     if not ctx.thorough():
         sel, seen = [], set()
         for k, d in enumerate(descs):
-            key = (d["mode"], json.dumps(d["cm"], sort_keys=True))
+            key = (d["mode"], json.dumps(d["cm"], sort_keys=True), d["sa"] == 3, d["sb"] == 3)
             if key not in seen or (k % 37 == ctx.seed % 37):
                 seen.add(key)
                 sel.append(d)
